@@ -56,6 +56,14 @@ func runGatedRandom(c *Ctx) {
 		case "C05":
 			w["del"] = 16
 		}
+		if i%4 == 1 {
+			// the capacity drops below the cost of any single item for a few operations (incl. buffered writes being
+			// applied) and comes back: new items are turned away meanwhile, everything else must work as before
+			w["mcdip"] = 3
+		}
+		if i%5 == 3 {
+			cfg.ShouldUpdate = "parity"
+		}
 		ttls := gatedTTLs
 		if i%4 == 2 {
 			// no-sweep mode: the ticker is set to hours, so entries whose short TTL has elapsed stay in the map
